@@ -189,18 +189,17 @@ mod verif_offsets {
                 for k in 0..INNER_NDIM {
                     assert!(ob.inner_pos[k].remaining == before.inner_pos[k].remaining && ob.inner_pos[k].offset == before.inner_pos[k].offset);
                 }
-                if n_outer > 0 { kani::cover!(r); }
+                kani::cover!(r);
                 kani::cover!(!r);
             }
         };
     }
-    step_outer_contract!(step_outer_pos_contract_d2, 2);
     step_outer_contract!(step_outer_pos_contract_d3, 3);
     step_outer_contract!(step_outer_pos_contract_d4, 4);
 
     /// fold visits exactly the remaining elements in order (rank-3 state, <= 8 elements).
     #[kani::proof]
-    #[kani::unwind(10)]
+    #[kani::unwind(4)]
     pub fn fold_visits_remaining_in_order_d3() {
         let mut dims = [(1usize, 0usize); 3];
         for d in 0..3 {
